@@ -868,7 +868,15 @@ def F12(m, R):
                     if v_ in attr_names or any(v_ == '%s.ansi_settings' % n_ for n_ in item_names):
                         attr_names.add(x.targets[0].id)
     unpack_names = item_names | attr_names
-    ok = 'hasattr(%s, \'ansi_settings\')' % it in txt and 'raise TypeError' in txt and any(('%s(%s, %s, parsed_ids)' % (ro.SCRUB, n_, mk)) in txt for n_ in unpack_names)
+    # the list of ids already being unpacked: the third parameter, or a local built from it (`seen = [*parsed_ids, id(settings)]`)
+    idp = f.own_params()[2] if len(f.own_params()) > 2 else 'parsed_ids'
+    id_names = {idp, 'parsed_ids'}
+    for x in f.walk():
+        if isinstance(x, ast.Assign) and len(x.targets) == 1 and isinstance(x.targets[0], ast.Name) and any(isinstance(y, ast.Name) and y.id in id_names for y in ast.walk(x.value)):
+            id_names.add(x.targets[0].id)
+    recurses = any(isinstance(x, ast.Call) and call_name(x) == ro.SCRUB and len(x.args) == 3 and not x.keywords and norm(x.args[0]) in unpack_names and
+                   norm(x.args[1]) == mk and norm(x.args[2]) in id_names for s_ in eb for x in ast.walk(s_))
+    ok = 'hasattr(%s, \'ansi_settings\')' % it in txt and 'raise TypeError' in txt and recurses
     # which kinds of value reach `raise TypeError`: exactly those that are neither a list nor a tuple (and have no ansi_settings)
     tt = {}
     try:
@@ -883,6 +891,7 @@ def F12(m, R):
                 ex.update({'isinstance(%s, list)' % n_: kind == 'list', 'isinstance(%s, tuple)' % n_: kind == 'tuple',
                            'isinstance(%s, (list, tuple))' % n_: kind in ('list', 'tuple'), 'isinstance(%s, (tuple, list))' % n_: kind in ('list', 'tuple'),
                            'id(%s) in parsed_ids' % n_: False})
+                ex.update({'id(%s) in %s' % (n_, l_): False for l_ in id_names})
             if kind == 'has-attr':
                 for n_ in unpack_names:
                     ex['isinstance(%s, list)' % n_] = False
